@@ -402,8 +402,10 @@ class BalancingLearner(BaseLearner):
         """Remove uncomputed data from the learners."""
         for learner in self.learners:
             learner.remove_unfinished()
-        # The children's suggestions and expected losses depend on their pending points.
+        # The children's suggestions and losses depend on their pending points
+        # (a Learner1D's loss is infinite while a bound is neither known nor pending).
         self._ask_cache.clear()
+        self._loss.clear()
         self._pending_loss.clear()
 
     @classmethod
